@@ -4,7 +4,6 @@ import (
 	"fmt"
 	"log"
 	"net"
-	"os"
 	"path/filepath"
 	"strings"
 	"time"
@@ -172,7 +171,13 @@ func recoverNode(dataDir string, extensions []string, fkEnabled bool, logger *lo
 
 	// Get a path to a temporary file to use for a temporary database.
 	tmpDBPath := filepath.Join(dataDir, "recovery.db")
-	defer os.Remove(tmpDBPath)
+	// The temporary database runs in WAL mode, so it consists of more than one file.
+	// Remove anything an earlier recovery may have left behind, or restoring a snapshot
+	// into it can fail, and remove all of it again when done.
+	if err := sql.RemoveFiles(tmpDBPath); err != nil {
+		return fmt.Errorf("failed to remove pre-existing temporary database: %s", err)
+	}
+	defer sql.RemoveFiles(tmpDBPath)
 
 	// Attempt to restore any latest snapshot.
 	var (
